@@ -415,6 +415,13 @@ let run_case idx flags dtd limit (text : n list) (out : Buffer.t) =
      with Model_stop s -> Buffer.add_buffer out b; Printf.bprintf out "%s R mstop %s\n" idx s)
   | Err e ->
     Printf.bprintf out "%s R err\n%s %s\n" idx idx (error_line e);
+    (* the position carried by the variant (the model has one position per error: pos() = the field) *)
+    (let l = error_line e in
+     match String.split_on_char ' ' l with
+     | _ :: name :: r :: c :: _ when not (List.mem name ["NoRootNode"; "UnclosedRootNode"; "DtdDetected"; "NodesLimitReached";
+                                                        "AttributesLimitReached"; "NamespacesLimitReached"; "UnexpectedEndOfStream"]) ->
+       Printf.bprintf out "%s EV %s %s\n" idx r c
+     | _ -> Printf.bprintf out "%s EV - -\n" idx);
     if String.contains flags 'g' then Printf.bprintf out "%s G ok 0\n" idx
   | Panic s -> Printf.bprintf out "%s R mpanic %s\n" idx (site_name s)
   | OutOfFuel -> Printf.bprintf out "%s R mfuel\n" idx
